@@ -2,8 +2,33 @@
    Statements only; proofs in Proofs/Chunk.v. *)
 From Coq Require Import List NArith Bool.
 From HV Require Import Cursor Model Spec.
-From HV.Proofs Require Import Chunk.
+From HV.Generated Require Import Lib.
+From HV.Proofs Require Import Chunk TieChunk.
 Import ListNotations.
+
+(* ---- tie to the source: `parse_chunk_size` as translated from /repo/src/lib.rs on this run
+   (Generated/Lib.v; macros expanded from macros.rs; one overflow guard per + - * in the width
+   rustc infers), run the way the Rust entry point runs it ---- *)
+Definition src_parse_chunk_size (dbg : bool) (buf : list N) : status * N :=
+  match g_parse_chunk_size dbg (S (length buf)) (cur_new buf) with
+  | Done (n, size) _ => (Complete n, size)
+  | Part => (Partial, 0%N)
+  | Fail e => (Error e, 0%N)
+  | Fault f => (Faulted f, 0%N)
+  end.
+
+Theorem src_chunk_is_model : forall dbg buf, src_parse_chunk_size dbg buf = parse_chunk_size dbg buf.
+Proof.
+  intros dbg buf. unfold src_parse_chunk_size, parse_chunk_size. rewrite tie_chunk.
+  destruct (chunk_loop _ _ _ _ _ _ _); reflexivity.
+Qed.
+Print Assumptions src_chunk_is_model.
+
+(* the translated source = the reference grammar; hence no guard the translator emitted can fire
+   (no overflow in u8 / i32 / u64 arithmetic), in debug and in release *)
+Theorem src_chunk_ref_eq : forall dbg buf, src_parse_chunk_size dbg buf = ref_chunk buf.
+Proof. intros. rewrite src_chunk_is_model. apply Chunk.chunk_ref_eq. Qed.
+Print Assumptions src_chunk_ref_eq.
 
 (* the model of parse_chunk_size (with its checked multiply-add and the debug-only guard)
    equals the reference grammar  1*16HEXDIG *(SP/HTAB) [";" *(non-CR)] CRLF  on every buffer *)
@@ -30,6 +55,12 @@ Proof. intros dbg buf n size H. rewrite Chunk.chunk_ref_eq in H. exact (ref_chun
 Print Assumptions chunk_value_exact.
 
 (* non-vacuity and the boundary: 16 F's are accepted with the value 2^64 - 1, 17 digits are not *)
+Example src_chunk_examples :
+  src_parse_chunk_size false (repeat 70 16 ++ [13; 10])%N = (Complete 18, 18446744073709551615%N) /\
+  src_parse_chunk_size true (repeat 70 17 ++ [13; 10])%N = (Error InvalidChunkSize, 0%N) /\
+  src_parse_chunk_size false [13; 10]%N = (Error InvalidChunkSize, 0%N).
+Proof. vm_compute. repeat split. Qed.
+
 Example chunk_examples :
   parse_chunk_size false (repeat 70 16 ++ [13; 10])%N = (Complete 18, 18446744073709551615%N) /\
   parse_chunk_size true (repeat 70 17 ++ [13; 10])%N = (Error InvalidChunkSize, 0%N) /\
